@@ -34,8 +34,8 @@ pub fn cluster_properties() -> Vec<PropertyConfig> {
         PropertyConfig {
             id: "C01",
             profiles: &[General, Cancel, Kill, Fail, Dag, Retract, Client, Priority],
-            quick_runs: 12_000,
-            thorough_runs: 400_000,
+            quick_runs: 30_000,
+            thorough_runs: 600_000,
             triggers: &["launches"],
             rule: "one run = seeded swarm configuration + workload + schedule on the cluster engine; non-trivial = at least one task was launched on a worker; distinct = distinct hash of the observable log (events, responses, wire messages, launches)",
             force_journal: None,
@@ -45,8 +45,8 @@ pub fn cluster_properties() -> Vec<PropertyConfig> {
         PropertyConfig {
             id: "C02",
             profiles: &[General, Kill, Retract, Dag, Client, Fail],
-            quick_runs: 12_000,
-            thorough_runs: 400_000,
+            quick_runs: 30_000,
+            thorough_runs: 600_000,
             triggers: &["quiescent_runs"],
             rule: "one run = faults then fair suffix; non-trivial = the run reached quiescence with at least one launch (liveness clause evaluated) ; distinct = distinct observable-log hash",
             force_journal: None,
@@ -56,8 +56,8 @@ pub fn cluster_properties() -> Vec<PropertyConfig> {
         PropertyConfig {
             id: "C03",
             profiles: &[Dag, Dag, Fail, Cancel, Restore, Restore],
-            quick_runs: 12_000,
-            thorough_runs: 300_000,
+            quick_runs: 30_000,
+            thorough_runs: 600_000,
             triggers: &["dependent_aborted", "submit_on_dead_dependency"],
             rule: "DAG-heavy workloads; server restarts in the middle of the DAG (crash actions, and in one of 12 runs a sweep over every record boundary of the final journal: no dependent of a task whose failure/cancel is recorded may come back runnable); non-trivial = a dependent was aborted/canceled because of a dead dependency, or a dependent was submitted on a dead task",
             force_journal: None,
@@ -67,8 +67,8 @@ pub fn cluster_properties() -> Vec<PropertyConfig> {
         PropertyConfig {
             id: "C04",
             profiles: &[Fail, Cancel, Kill, General, Retract],
-            quick_runs: 8_000,
-            thorough_runs: 300_000,
+            quick_runs: 16_000,
+            thorough_runs: 600_000,
             triggers: &["launches"],
             rule: "worker part of C04: real worker state machines in cluster runs with launch failures, cancels, kills, time limits and prefilled backlogs; after every step the allocator snapshot of every worker is compared with the allocations of its running tasks (exclusive, exact, conserved: free + held == total, nothing stays taken when no task runs); non-trivial = at least one launch",
             force_journal: None,
@@ -78,8 +78,8 @@ pub fn cluster_properties() -> Vec<PropertyConfig> {
         PropertyConfig {
             id: "C05",
             profiles: &[General, Retract, Priority, Kill],
-            quick_runs: 12_000,
-            thorough_runs: 400_000,
+            quick_runs: 30_000,
+            thorough_runs: 600_000,
             triggers: &["rounds_with_placements"],
             rule: "non-trivial = at least one scheduling round placed a task (per-round and per-step accounting oracles evaluated)",
             force_journal: None,
@@ -89,8 +89,8 @@ pub fn cluster_properties() -> Vec<PropertyConfig> {
         PropertyConfig {
             id: "C06",
             profiles: &[Retract, Retract, Kill, General, Restore],
-            quick_runs: 12_000,
-            thorough_runs: 400_000,
+            quick_runs: 30_000,
+            thorough_runs: 600_000,
             triggers: &["retract_delivered", "redirect_decided", "restart_after_loss"],
             rule: "retract-heavy (reserve 0-1, several priorities, >=2 workers); non-trivial = a retract was delivered, a redirect decided, or a task restarted after a loss",
             force_journal: None,
@@ -100,8 +100,8 @@ pub fn cluster_properties() -> Vec<PropertyConfig> {
         PropertyConfig {
             id: "C07",
             profiles: &[Kill, Kill, General, Retract, Restore],
-            quick_runs: 12_000,
-            thorough_runs: 400_000,
+            quick_runs: 30_000,
+            thorough_runs: 600_000,
             triggers: &["loss_with_running_task"],
             rule: "kill profile (1-4 losses, every reason, all crash limits); non-trivial = a worker was lost while the server had reported a task running on it",
             force_journal: None,
@@ -111,8 +111,8 @@ pub fn cluster_properties() -> Vec<PropertyConfig> {
         PropertyConfig {
             id: "C08",
             profiles: &[Cancel, Cancel, General, Retract],
-            quick_runs: 12_000,
-            thorough_runs: 400_000,
+            quick_runs: 30_000,
+            thorough_runs: 600_000,
             triggers: &["cancel_effective"],
             rule: "cancel profile; non-trivial = a cancel request hit at least one non-terminal task",
             force_journal: None,
@@ -122,7 +122,7 @@ pub fn cluster_properties() -> Vec<PropertyConfig> {
         PropertyConfig {
             id: "C09",
             profiles: &[General, Cancel, Kill, Fail, Dag, Retract, Client, Priority],
-            quick_runs: 20_000,
+            quick_runs: 36_000,
             thorough_runs: 1_000_000,
             triggers: &["launches"],
             rule: "union of all profiles; every call into repository code runs under catch_unwind; non-trivial = at least one launch",
@@ -133,7 +133,7 @@ pub fn cluster_properties() -> Vec<PropertyConfig> {
         PropertyConfig {
             id: "C15",
             profiles: &[Priority, Priority, Priority, General],
-            quick_runs: 20_000,
+            quick_runs: 36_000,
             thorough_runs: 600_000,
             triggers: &["c15_rounds_with_dispatch_and_leftover"],
             rule: "priority profile (<=3 worker shapes, single-variant single-node classes, 2-4 priority levels, workers made partly busy by the preceding history); the statement is evaluated literally on every scheduling round whose ready queue is inside the property's domain (no multi-node / multi-variant request ready, <= 8 levels, solve reported optimal, no prefilled/retracting task); non-trivial = a round dispatched something and left something ready; violations are grouped by shape class w<#workers<=3>-c<#classes<=3>-het|hom-busy|idle",
@@ -145,7 +145,7 @@ pub fn cluster_properties() -> Vec<PropertyConfig> {
             id: "C10",
             profiles: &[Restore, Restore, Restore, Prune],
             quick_runs: 30_000,
-            thorough_runs: 300_000,
+            thorough_runs: 600_000,
             triggers: &["restarts", "journal_cuts_checked"],
             rule: "journals produced by the real server in cluster runs; per run 1-3 crashes at seeded steps with a seeded cut in [last sync, bytes at the OS] (record boundary or torn record), plus a restart from the complete journal at the end of every run, plus - in one of 40 runs - a sweep over every record boundary and 2 seeded interior bytes per record of the final journal (fault enumeration along that history); oracle = independent reference fold of the surviving records vs the restarted State/core; non-trivial = at least one restart was compared; distinct = observable-log hash",
             force_journal: Some(true),
@@ -156,7 +156,7 @@ pub fn cluster_properties() -> Vec<PropertyConfig> {
             id: "C11",
             profiles: &[Restore, Restore, Prune, Kill],
             quick_runs: 30_000,
-            thorough_runs: 300_000,
+            thorough_runs: 600_000,
             triggers: &["restarts"],
             rule: "same runs as C10 (1-3 restarts per run, allocation-queue create/remove records injected through the real EventStreamer); oracle = id counters after the restart vs every id the surviving journal mentions, ids actually issued afterwards vs the same set, server uid unchanged; non-trivial = at least one restart",
             force_journal: Some(true),
@@ -167,7 +167,7 @@ pub fn cluster_properties() -> Vec<PropertyConfig> {
             id: "C12",
             profiles: &[Prune, Prune, Prune, Restore],
             quick_runs: 30_000,
-            thorough_runs: 300_000,
+            thorough_runs: 600_000,
             triggers: &["prunes"],
             rule: "real PruneJournal request (real handle_prune_journal + real streaming_process prune branch: tmp file, rename, reopen) at seeded steps; metamorphic oracle: restart(journal before the prune) == restart(pruned journal) on unfinished jobs, task outcomes, pending tasks with dependencies / next instance id / crash count, queues; the run continues (append, prune again, crash, final restart); non-trivial = at least one prune executed",
             force_journal: Some(true),
@@ -177,8 +177,8 @@ pub fn cluster_properties() -> Vec<PropertyConfig> {
         PropertyConfig {
             id: "C13",
             profiles: &[Client, Client, General, Cancel],
-            quick_runs: 12_000,
-            thorough_runs: 400_000,
+            quick_runs: 30_000,
+            thorough_runs: 600_000,
             triggers: &["submit_ok"],
             rule: "client-heavy profile (open/submit/close/cancel/forget mixes, submit --wait, journal mostly on); non-trivial = at least one accepted submit",
             force_journal: None,
@@ -188,8 +188,8 @@ pub fn cluster_properties() -> Vec<PropertyConfig> {
         PropertyConfig {
             id: "C14",
             profiles: &[Fail, Fail, General],
-            quick_runs: 12_000,
-            thorough_runs: 400_000,
+            quick_runs: 30_000,
+            thorough_runs: 600_000,
             triggers: &["max_fails_tripped"],
             rule: "fail profile (max_fails 0..2, 20-60% failing tasks, launch failures); non-trivial = the failure limit of some job was exceeded",
             force_journal: None,
